@@ -84,12 +84,16 @@ using WObj = trompeloeil::deathwatched<MWb>;
 using E = std::unique_ptr<trompeloeil::expectation>;
 
 enum { S_A0 = 0, S_Q1 = 1, S_Q2 = 2, S_D = 3, S_Q3 = 4, S_FIRST_CREATED = 5 };
-enum { NOPS = 21, MAXT = 3, MAXOPS = 3 };
+enum { NOPS = 23, MAXT = 3, MAXOPS = 3 };
 static const char* OPN[NOPS] = {"call m.f(1)", "call m.f(0)", "call m.g(1)", "create REQUIRE_CALL(m,f(1))", "create+release ALLOW_CALL(m,f(_))",
   "create REQUIRE_CALL(m,g(_)).IN_SEQUENCE(s).TIMES(2)", "create REQUIRE_CALL(m,g(_)).TIMES(2).IN_SEQUENCE(s)", "create REQUIRE_CALL(m,g(_)).IN_SEQUENCE(s,s2)",
   "release Q1", "release A0", "Q2.is_satisfied();Q2.is_saturated()", "s.is_completed()", "delete w", "release D", "destroy m2",
   "create REQUIRE_CALL(m,g(_)).IN_SEQUENCE(s3).TIMES(AT_MOST(2))", "s3.is_completed()", "release Q3 (expectation on m2)",
-  "create REQUIRE_DESTRUCTION(*w).IN_SEQUENCE(s3)", "D.is_satisfied();D.is_saturated()", "Q1.is_satisfied();Q1.is_saturated()"};
+  "create REQUIRE_DESTRUCTION(*w).IN_SEQUENCE(s3)", "D.is_satisfied();D.is_saturated()", "Q1.is_satisfied();Q1.is_saturated()",
+  "create REQUIRE_CALL(m,g(_)).TIMES(AT_MOST(2)).IN_SEQUENCE(s3)", "own mock: create it, ALLOW_CALL, call, destroy (nothing shared but the library's lock)"};
+// a program made of operation 22 only is a "cold start": the main thread does not touch the library before the workers do (the
+// fixture is built after they have finished), so the very first acquisitions of the library's lock are concurrent
+static bool cold_start(const struct Program& p);
 
 struct Program { int nt; int nops[MAXT]; int op[MAXT][MAXOPS]; };
 static std::string prog_str(const Program& p) {
@@ -97,6 +101,7 @@ static std::string prog_str(const Program& p) {
   for (int t = 0; t < p.nt; ++t) { s += (t ? " || " : ""); s += "T" + std::to_string(t) + ": "; for (int j = 0; j < p.nops[t]; ++j) { if (j) s += "; "; s += OPN[p.op[t][j]]; } }
   return s;
 }
+static bool cold_start(const Program& p) { for (int t = 0; t < p.nt; ++t) for (int j = 0; j < p.nops[t]; ++j) if (p.op[t][j] != 22) return false; return true; }
 static int created_slot(const Program& p, int t, int j) {  // model slot of the expectation created by op j of thread t
   int k = S_FIRST_CREATED;
   static_assert(S_FIRST_CREATED + 6 <= NSLOT, "every operation of the largest program shape (2x3, 3x2) needs a slot of its own");
@@ -158,11 +163,15 @@ static ExecResult execute(const Program& p, const std::vector<int>& choices) {
   std::unique_ptr<trompeloeil::sequence> s(new trompeloeil::sequence), s2(new trompeloeil::sequence), s3(new trompeloeil::sequence);
   std::unique_ptr<WObj> w(new WObj);
   E slot[NSLOT];
+  const bool cold = cold_start(p);
+  auto build_fixture = [&] {
   slot[S_A0] = NAMED_ALLOW_CALL(*m, f(trompeloeil::_)).SIDE_EFFECT(make_tracer()).RETURN(100 + S_A0);
   slot[S_Q1] = NAMED_REQUIRE_CALL(*m, f(1)).IN_SEQUENCE(*s).TIMES(AT_LEAST(1)).RETURN(100 + S_Q1);
   slot[S_Q2] = NAMED_REQUIRE_CALL(*m, g(trompeloeil::_)).IN_SEQUENCE(*s, *s2).RETURN(100 + S_Q2);
   slot[S_D] = NAMED_REQUIRE_DESTRUCTION(*w).IN_SEQUENCE(*s2);
   slot[S_Q3] = NAMED_REQUIRE_CALL(*m2, f(trompeloeil::_)).IN_SEQUENCE(*s).RETURN(100 + S_Q3);
+  };
+  if (!cold) build_fixture();
   auto body = [&](int t) {
     me = t;
     sched_thread_start(t);
@@ -190,6 +199,10 @@ static ExecResult execute(const Program& p, const std::vector<int>& choices) {
         case 18: slot[cs] = NAMED_REQUIRE_DESTRUCTION(*w).IN_SEQUENCE(*s3); r = "ok"; break;
         case 19: { bool a = slot[S_D]->is_satisfied(); bool b = slot[S_D]->is_saturated(); r = std::string("q:") + (a ? '1' : '0') + (b ? '1' : '0'); break; }
         case 20: { bool a = slot[S_Q1]->is_satisfied(); bool b = slot[S_Q1]->is_saturated(); r = std::string("q:") + (a ? '1' : '0') + (b ? '1' : '0'); break; }
+        case 21: slot[cs] = NAMED_REQUIRE_CALL(*m, g(trompeloeil::_)).TIMES(AT_MOST(2)).IN_SEQUENCE(*s3).RETURN(v); r = "ok"; break;
+        case 22: { std::unique_ptr<M> own(new M); int got; { auto e = NAMED_ALLOW_CALL(*own, f(trompeloeil::_)).RETURN(_1 + 40); got = own->f(2); } own.reset();
+          std::string rep = take_reports(t); for (size_t q; (q = rep.find("N:trace,")) != std::string::npos;) rep.erase(q, 8);   // whether a tracer of the shared fixture exists by then is not this operation's business
+          r = "own:" + std::to_string(got) + rep; break; }
       }
       R.res[t].push_back(r);
     }
@@ -200,6 +213,7 @@ static ExecResult execute(const Program& p, const std::vector<int>& choices) {
   sched_main_go();
   sched_main_wait();
   for (auto& x : th) x.join();
+  if (cold) build_fixture();
   // final observation by the main thread
   std::string q;
   for (int i = 0; i < NSLOT; ++i) if (slot[i]) q += std::to_string(i) + ':' + (slot[i]->is_satisfied() ? '1' : '0') + (slot[i]->is_saturated() ? '1' : '0') + ' ';
@@ -226,7 +240,7 @@ static std::string result_key(const Program& p, const ExecResult& r) {
 // model side: atomic steps of every operation, all program-order-respecting interleavings
 // -------------------------------------------------------------------------------------------------
 struct Micro { int kind; int a, b, c; int d = 0; Micro(int k, int a_, int b_, int c_, int d_ = 0) : kind(k), a(a_), b(b_), c(c_), d(d_) {} };  // kinds below
-enum { MI_MONITOR = 100, MI_CALL = 0, MI_CREATE_HOOK, MI_BEGIN_REG, MI_REG, MI_BOUNDS, MI_HOOK, MI_RELEASE, MI_QSAT, MI_QSATUR, MI_QCOMP, MI_DELETE_W, MI_DECOM_ACT, MI_DECOM_SAT };
+enum { MI_MONITOR = 100, MI_BEGIN_REG_LH = 101, MI_OWN = 102, MI_CALL = 0, MI_CREATE_HOOK, MI_BEGIN_REG, MI_REG, MI_BOUNDS, MI_HOOK, MI_RELEASE, MI_QSAT, MI_QSATUR, MI_QCOMP, MI_DELETE_W, MI_DECOM_ACT, MI_DECOM_SAT };
 
 static std::vector<Micro> micro_of(int op, int cs) {
   switch (op) {
@@ -251,6 +265,8 @@ static std::vector<Micro> micro_of(int op, int cs) {
     case 18: return {{MI_MONITOR, cs, 0, 0}, {MI_REG, cs, 2, 0}};
     case 19: return {{MI_QSAT, S_D, 0, 0}, {MI_QSATUR, S_D, 0, 0}};
     case 20: return {{MI_QSAT, S_Q1, 0, 0}, {MI_QSATUR, S_Q1, 0, 0}};
+    case 21: return {{MI_BEGIN_REG_LH, cs, 7, 0 * 100 + 2 /*AT_MOST(2) already given*/, 2 /*sequence s3*/}, {MI_HOOK, cs, 0, 0}};
+    case 22: return {{MI_OWN, 0, 0, 0}};
   }
   return {};
 }
@@ -291,6 +307,8 @@ static std::string apply_micro(Model& md, const Micro& mi, std::string& acc) {
     }
     case MI_CREATE_HOOK: { const Shape& sh = g_shapes[mi.b]; int lo, hi; Op d; memset(&d, 0, sizeof d); Model::bounds_of(sh, d, lo, hi); md.micro_begin(mi.a, mi.b, 0, 1, lo, hi); md.micro_hook(mi.a); acc = "ok"; break; }
     case MI_BEGIN_REG: md.micro_begin(mi.a, mi.b, 0, 0, mi.c, mi.c); md.micro_register(mi.a, mi.d); acc = "ok"; break;
+    case MI_BEGIN_REG_LH: md.micro_begin(mi.a, mi.b, 0, 0, mi.c / 100, mi.c % 100); md.micro_register(mi.a, mi.d); acc = "ok"; break;
+    case MI_OWN: acc = "own:42"; break;   // touches nothing of the shared fixture
     case MI_REG: md.micro_register(mi.a, mi.b); break;
     case MI_MONITOR: md.micro_begin(mi.a, 3, 0, 0, 1, 1); md.micro_hook(mi.a); acc = "ok"; break;  // a second requirement on the watched object w
     case MI_BOUNDS: md.micro_bounds(mi.a, mi.b, mi.c); break;
